@@ -62,7 +62,7 @@ theorem grow_ok {c : Cbuf} (hi : Inv c) (n : Nat) (hlt : c.size < c.maxsize) (hn
       have hdsz : (c.data ++ Array.replicate (s' - c.size) 0).size = s' + 1 := by simp [hds]; omega
       refine ⟨⟨by simp [hdsz], by simp; omega, by simp; omega, by simp; omega, by simpa using halloc,
           by simp; omega, by simp; omega, by simp; omega, by simp; omega, by simp only; omega,
-          by simp [hgw], by simp only; omega⟩,
+          by simp [hgw], by simp only; omega, hi.mpos⟩,
         by simp; omega, by simp; omega, ?_, rfl, rfl, rfl, rfl, ?_, ?_⟩
       · -- contents
         simp only [contents]
@@ -119,7 +119,7 @@ theorem grow_ok {c : Cbuf} (hi : Inv c) (n : Nat) (hlt : c.size < c.maxsize) (hn
       have hdsz : (c.data ++ Array.replicate (s' - c.size) 0).size = s' + 1 := by simp [hds]; omega
       refine ⟨⟨by simp [hdsz], by simp; omega, by simp; omega, by simp; omega, by simpa using halloc,
           by simp; omega, by simp; omega, by simp; omega, by simp; omega, by simp only; omega,
-          by simp [hgw], by simp only; omega⟩,
+          by simp [hgw], by simp only; omega, hi.mpos⟩,
         by simp; omega, by simp; omega, ?_, rfl, rfl, rfl, rfl, ?_, ?_⟩
       · -- unread data lies below i_rep, contiguous, untouched
         simp only [contents]
@@ -158,7 +158,7 @@ theorem grow_ok {c : Cbuf} (hi : Inv c) (n : Nat) (hlt : c.size < c.maxsize) (hn
     have hnowrap : c.iOut + c.used < c.size + 1 := by omega
     refine ⟨⟨by simp [hdsz], by simp; omega, by simp; omega, by simp; omega, by simpa using halloc,
         by simp; omega, by simp; omega, by simp; omega, by simp; omega, by simp only; omega,
-        by simpa using hw, by simp only; omega⟩,
+        by simpa using hw, by simp only; omega, hi.mpos⟩,
       by simp; omega, by simp; omega, ?_, rfl, rfl, rfl, rfl, ?_, ?_⟩
     · simp only [contents]
       apply circRead_ext _ _ _ _ _ _ _ (by omega) (by omega)
